@@ -25,8 +25,10 @@ pub enum Move {
 
 #[derive(Clone, Debug)]
 pub struct ByteScn {
-    /// Poly0, Poly3, Poly8 or PolyN
+    /// Poly0..Poly8 or PolyN (the piece types that implement Arbitrary)
     pub kind: Kind,
+    /// decode through `arbitrary_take_rest` instead of `arbitrary`
+    pub take_rest: bool,
     pub bytes: Vec<u8>,
     /// header length of the intended encoding (flags + end bytes + terminator); faults enumerate inside it
     pub header_len: usize,
@@ -85,10 +87,14 @@ pub fn encode_ends(ends: &[f64], rng: &mut Rng) -> Vec<u8> {
 // Execution
 // ---------------------------------------------------------------------------
 
-fn decode<T: for<'a> Arbitrary<'a>>(bytes: &[u8]) -> Result<Result<Piecewise<T>, String>, String> {
+fn decode<T: for<'a> Arbitrary<'a>>(bytes: &[u8], take_rest: bool) -> Result<Result<Piecewise<T>, String>, String> {
     guard(|| {
-        let mut u = Unstructured::new(bytes);
-        <Piecewise<T> as Arbitrary>::arbitrary(&mut u).map_err(|e| format!("{e:?}"))
+        if take_rest {
+            <Piecewise<T> as Arbitrary>::arbitrary_take_rest(Unstructured::new(bytes)).map_err(|e| format!("{e:?}"))
+        } else {
+            let mut u = Unstructured::new(bytes);
+            <Piecewise<T> as Arbitrary>::arbitrary(&mut u).map_err(|e| format!("{e:?}"))
+        }
     })
 }
 
@@ -120,7 +126,7 @@ where
     prog.tick();
     cov.events += 1;
     let want = model_expected(&scn.bytes);
-    let got = match decode::<T>(&scn.bytes) {
+    let got = match decode::<T>(&scn.bytes, scn.take_rest) {
         Ok(r) => r,
         Err(p) => return Err(("panic".into(), format!("Piecewise::<{}>::arbitrary panicked on {} bytes: {p}", scn.kind.name(), scn.bytes.len()))),
     };
@@ -245,7 +251,7 @@ where
         clients: vec![Client { func: 0, kind: ClientKind::Eval }, Client { func: 0, kind: ClientKind::Stream }],
         events,
     };
-    match cursor::execute(&cs, Judge { evals: true, streams: true }, cov, prog) {
+    match cursor::execute(&cs, Judge { evals: true, streams: true, build: true }, cov, prog) {
         RunResult::Clean { digest } => dig.word(digest),
         RunResult::Discard => {}
         RunResult::Violation { class, detail } => {
@@ -258,7 +264,13 @@ where
 pub fn check_one(scn: &ByteScn, cov: &mut Cov, prog: &Progress) -> Result<u64, (String, String)> {
     match scn.kind {
         Kind::P(0) => check_typed::<Poly0>(scn, cov, prog),
+        Kind::P(1) => check_typed::<Poly1>(scn, cov, prog),
+        Kind::P(2) => check_typed::<Poly2>(scn, cov, prog),
         Kind::P(3) => check_typed::<Poly3>(scn, cov, prog),
+        Kind::P(4) => check_typed::<Poly4>(scn, cov, prog),
+        Kind::P(5) => check_typed::<Poly5>(scn, cov, prog),
+        Kind::P(6) => check_typed::<Poly6>(scn, cov, prog),
+        Kind::P(7) => check_typed::<Poly7>(scn, cov, prog),
         Kind::P(8) => check_typed::<Poly8>(scn, cov, prog),
         Kind::N => check_typed::<PolyN>(scn, cov, prog),
         _ => Ok(0),
@@ -292,7 +304,12 @@ fn gen_end(rng: &mut Rng, class: u64) -> f64 {
 }
 
 fn gen_scn(rng: &mut Rng, _tier: Tier) -> ByteScn {
-    let kind = *rng.pick(&[Kind::P(0), Kind::P(0), Kind::P(3), Kind::P(8), Kind::N]);
+    let kind = match rng.below(6) {
+        0 | 1 => Kind::P(0),
+        2 => Kind::N,
+        _ => Kind::P(rng.below(9) as u8),
+    };
+    let take_rest = rng.chance(1, 4);
     let moves: Vec<Move> = (0..rng.usize_in(1, 6))
         .map(|_| {
             let i = rng.usize_in(0, 15);
@@ -311,7 +328,7 @@ fn gen_scn(rng: &mut Rng, _tier: Tier) -> ByteScn {
         let len = rng.usize_in(0, 80);
         let bytes: Vec<u8> = (0..len).map(|_| rng.next_u64() as u8).collect();
         let header_len = bytes.len().min(40);
-        return ByteScn { kind, bytes, header_len, moves };
+        return ByteScn { kind, take_rest, bytes, header_len, moves };
     }
     let n = match rng.below(20) {
         0 => 0,
@@ -362,7 +379,7 @@ fn gen_scn(rng: &mut Rng, _tier: Tier) -> ByteScn {
     for _ in 0..piece_bytes {
         bytes.push(rng.next_u64() as u8);
     }
-    ByteScn { kind, bytes, header_len, moves }
+    ByteScn { kind, take_rest, bytes, header_len, moves }
 }
 
 /// sub = 0: base; 1..=len: truncation to sub-1 bytes; then single-bit flips in the header.
@@ -439,6 +456,7 @@ fn to_json(scn: &ByteScn) -> Value {
     json!({
         "world": "byte-source",
         "piece_type": scn.kind.name(),
+        "entry_point": if scn.take_rest { "arbitrary_take_rest" } else { "arbitrary" },
         "bytes_hex": scn.bytes.iter().map(|b| format!("{b:02x}")).collect::<String>(),
         "header_len": scn.header_len,
         "decoded_header_for_readers": fj_list(&ends),
@@ -454,9 +472,10 @@ fn to_json(scn: &ByteScn) -> Value {
 
 fn from_json(v: &Value) -> Result<ByteScn, String> {
     let kind = Kind::parse(jstr(v, "piece_type")?)?;
-    if !matches!(kind, Kind::P(0) | Kind::P(3) | Kind::P(8) | Kind::N) {
-        return Err("piece type must be Poly0, Poly3, Poly8 or PolyN".into());
+    if !matches!(kind, Kind::P(_) | Kind::N) {
+        return Err("piece type must be Poly0..Poly8 or PolyN".into());
     }
+    let take_rest = v.get("entry_point").and_then(|e| e.as_str()) == Some("arbitrary_take_rest");
     let hex = jstr(v, "bytes_hex")?;
     if hex.len() % 2 != 0 {
         return Err("odd hex length".into());
@@ -484,7 +503,7 @@ fn from_json(v: &Value) -> Result<ByteScn, String> {
             })
         })
         .collect::<Result<Vec<_>, String>>()?;
-    Ok(ByteScn { kind, bytes, header_len, moves })
+    Ok(ByteScn { kind, take_rest, bytes, header_len, moves })
 }
 
 pub struct C19;
@@ -499,8 +518,8 @@ impl World for C19 {
     }
     fn default_runs(&self, tier: Tier) -> u64 {
         match tier {
-            Tier::Quick => 30_000,
-            Tier::Thorough => 1_500_000,
+            Tier::Quick => 80_000,
+            Tier::Thorough => 2_000_000,
         }
     }
     fn generate(&self, rng: &mut Rng, tier: Tier) -> ByteScn {
@@ -580,7 +599,7 @@ impl World for C19 {
         format!("{class}/{what}")
     }
     fn rule(&self) -> String {
-        "Each evaluation is one seeded base byte string for Piecewise<T>::arbitrary (T in Poly0, Poly3, Poly8, PolyN): an encoding of 0-12 breakpoints drawn from 8 classes (small integers, random, random normal bit patterns, normal extremes, +-0, subnormals, +-inf, NaN patterns; descending / duplicated orders) followed by complete, partial or no piece bytes, or (10%) a wholly random string; plus ALL its faulted variants: EOF at every offset and every single-bit flip in the header. Each decode must return Err or a function with >= 1 segment, all breakpoints normal and non-decreasing, must succeed when the model of the wire format says the encoded breakpoints are all normal, and every returned function is driven through Piecewise::evaluate, PiecewiseEvaluator and evaluate_v (as decoded, and with tag pieces on the same breakpoints). distinct = distinct (piece type, byte string) decoded whose header encodes >= 2 breakpoints.".into()
+        "Each evaluation is one seeded base byte string for Piecewise<T>::arbitrary (T in Poly0..Poly8, PolyN; entry points arbitrary and arbitrary_take_rest): an encoding of 0-12 breakpoints drawn from 8 classes (small integers, random, random normal bit patterns, normal extremes, +-0, subnormals, +-inf, NaN patterns; descending / duplicated orders) followed by complete, partial or no piece bytes, or (10%) a wholly random string; plus ALL its faulted variants: EOF at every offset and every single-bit flip in the header. Each decode must return Err or a function with >= 1 segment, all breakpoints normal and non-decreasing, must succeed when the model of the wire format says the encoded breakpoints are all normal, and every returned function is driven through Piecewise::evaluate, PiecewiseEvaluator and evaluate_v (as decoded, and with tag pieces on the same breakpoints). distinct = distinct (piece type, byte string) decoded whose header encodes >= 2 breakpoints.".into()
     }
     fn assumptions(&self) -> Vec<String> {
         vec![
